@@ -329,7 +329,14 @@ def job_outside(job):
         n = len(base["water_flux"])
         for (L, T, mode) in job["variants"]:
             wl = clip(full, cfg["start"], cfg["end"], L, T)
-            if mode != "real":
+            if mode == "gap":
+                # the extra leading records are not contiguous: a block of days is missing from them (all of it before the window)
+                s_ = pd.to_datetime(cfg["start"])
+                lead_idx = wl.index[wl.Date < s_]
+                if len(lead_idx) >= 20:
+                    drop = lead_idx[len(lead_idx) // 3: len(lead_idx) // 3 + 9]
+                    wl = wl.drop(index=drop).reset_index(drop=True)
+            elif mode != "real":
                 s, e = pd.to_datetime(cfg["start"]), pd.to_datetime(cfg["end"])
                 outside = (wl.Date < s) | (wl.Date > e)
                 g = garbage(wl, mode)
@@ -528,6 +535,8 @@ def main():
                     modes = ["real", "extreme", "nan"] if (L in (0, 1, 400) and T in (0, 1, 400)) else [["real", "extreme", "nan"][(ci + ei) % 3]]
                 for mo in modes:
                     variants.append((L, T, mo))
+                if L >= 30 and (T == 0 or not quick):
+                    variants.append((L, T, "gap"))
             step = 5 if quick else 12
             for i in range(0, len(variants), step):
                 jobs.append({"type": "OUTSIDE", "cfg": cfg, "variants": variants[i:i + step]})
@@ -552,6 +561,10 @@ def main():
                 step = 4 if quick else 6
                 for i in range(0, len(ds), step):
                     jobs.append({"type": "EXTEND", "cfg": cfg, "variants": ds[i:i + step]})
+        # fixed EXTEND case (independent of the seed): years between the decadal rows of the default CO2 record (2010, 2020, ...); the
+        # extension crosses 2020, so a concentration derived from the simulated period instead of the record would change completed seasons
+        cfgx = mk_cfg(("Potato", "04/15", "cambridge"), "cd", 2009, 0, nseasons=6)
+        jobs.append({"type": "EXTEND", "cfg": cfgx, "variants": [365, 2200]})
         # longest jobs first
         order = sorted(range(len(jobs)), key=lambda i: -len(jobs[i]["variants"]))
         with mp.Pool(16, maxtasksperchild=20) as pool:
